@@ -19,6 +19,10 @@ PAYLOADS = {
     "dir": [(("a",), 20000), (("d", "x"), P0 + 1), (("d", "X"), 5),
             (("D",), 2 * P0)],
     "file": [((), 2 * P0 + 7)],
+    # names that tie under other popular sort keys: canonically equivalent
+    # spellings (NFC / NFD), equal numeric value (f1 / f01)
+    "dir-eq": [(("caf\u00e9.bin",), 20000), (("cafe\u0301.bin",), P0 + 1),
+               (("d", "f01"), 5), (("d", "f1"), 7)],
 }
 
 SPELL_DIR = ["abs", "rel", "./rel", "rel/", "rel//", "rel/.", "a//rel",
@@ -74,7 +78,7 @@ def resolve_path(spelling, cwdkind, L, payload_kind):
         ".": (R, "."), "..": (os.path.join(R, "d"), ".."),
     }[spelling]
     cwd, p = need
-    want = {"parent": L, "root-or-sub": R if payload_kind == "dir"
+    want = {"parent": L, "root-or-sub": R if payload_kind.startswith("dir")
             else L, "unrelated": os.path.join(os.path.dirname(L), "elsewhere")
             }[cwdkind]
     if cwd is None:
@@ -124,7 +128,7 @@ class InfoHashCheck:
         pk, cname, seed = g["payload"], g["creator"], g["seed"]
         kw = dict(dict(CREATORS)[cname])
         creator = cname.split("+")[0]
-        spells = SPELL_DIR if pk == "dir" else SPELL_FILE
+        spells = SPELL_DIR if pk.startswith("dir") else SPELL_FILE
         vals = {}
         ndev = 0
         for ax in AXIS_ORDER:
@@ -160,7 +164,7 @@ class InfoHashCheck:
             outarg = outdir + os.sep
             expect = None
         elif vals["outfile"] == "inside-payload":
-            if pk != "dir":
+            if not pk.startswith("dir"):
                 return {"skip": "no inside for a single file", "vals": vals}
             outarg = os.path.join(L, NAME, "d", "out.torrent")
             expect = outarg
@@ -263,7 +267,7 @@ class InfoHashCheck:
             res.validated += 1
             vals = r["vals"]
             dev_axes = [ax for ax in AXIS_ORDER if vals[ax] != (
-                (SPELL_DIR if g["payload"] == "dir" else SPELL_FILE)[0]
+                (SPELL_DIR if g["payload"].startswith("dir") else SPELL_FILE)[0]
                 if ax == "spelling" else AXES[ax][0])]
             listing_dev = any(c for c, (n, lab) in zip(run.choices, run.points)
                               if lab.startswith("listdir"))
